@@ -39,6 +39,8 @@ use crate::tdigest::serialization::SERIAL_VERSION;
 const DEFAULT_K: u16 = 200;
 /// Multiplier for buffer size relative to centroids capacity.
 const BUFFER_MULTIPLIER: usize = 4;
+/// Upper limit for vector capacity reserved from a count read from a serialized image.
+const MAX_PREALLOCATED_CENTROIDS: usize = 1 << 12;
 /// Default weight for single values.
 const DEFAULT_WEIGHT: NonZeroU64 = NonZeroU64::new(1).unwrap();
 
@@ -577,7 +579,7 @@ impl TDigestMut {
         };
         check_non_nan(min, "min")?;
         check_non_nan(max, "max")?;
-        let mut centroids = Vec::with_capacity(num_centroids);
+        let mut centroids = Vec::with_capacity(num_centroids.min(MAX_PREALLOCATED_CENTROIDS));
         let mut centroids_weight = 0u64;
         for _ in 0..num_centroids {
             let (mean, weight) = if is_f32 {
@@ -594,10 +596,10 @@ impl TDigestMut {
             check_non_nan(mean, "centroid mean")?;
             check_finite(mean, "centroid")?;
             let weight = check_nonzero(weight, "centroid weight")?;
-            centroids_weight += weight.get();
+            centroids_weight = checked_total(centroids_weight, weight.get())?;
             centroids.push(Centroid { mean, weight });
         }
-        let mut buffer = Vec::with_capacity(num_buffered);
+        let mut buffer = Vec::with_capacity(num_buffered.min(MAX_PREALLOCATED_CENTROIDS));
         for _ in 0..num_buffered {
             let value = if is_f32 {
                 cursor
@@ -612,6 +614,7 @@ impl TDigestMut {
             check_finite(value, "buffered_value mean")?;
             buffer.push(value);
         }
+        check_centroids(min, max, &centroids, &buffer)?;
         Ok(TDigestMut::make(
             k,
             reverse_merge,
@@ -652,16 +655,17 @@ impl TDigestMut {
                 let num_centroids =
                     cursor.read_u32_be().map_err(make_error("num_centroids"))? as usize;
                 let mut total_weight = 0u64;
-                let mut centroids = Vec::with_capacity(num_centroids);
+                let mut centroids = Vec::with_capacity(num_centroids.min(MAX_PREALLOCATED_CENTROIDS));
                 for _ in 0..num_centroids {
                     let weight = cursor.read_f64_be().map_err(make_error("weight"))? as u64;
                     let mean = cursor.read_f64_be().map_err(make_error("mean"))?;
                     let weight = check_nonzero(weight, "centroid weight in compat double format")?;
                     check_non_nan(mean, "centroid mean in compat double format")?;
                     check_finite(mean, "centroid mean in compat double format")?;
-                    total_weight += weight.get();
+                    total_weight = checked_total(total_weight, weight.get())?;
                     centroids.push(Centroid { mean, weight });
                 }
+                check_centroids(min, max, &centroids, &[])?;
                 Ok(TDigestMut::make(
                     k,
                     false,
@@ -694,16 +698,17 @@ impl TDigestMut {
                 let num_centroids =
                     cursor.read_u16_be().map_err(make_error("num_centroids"))? as usize;
                 let mut total_weight = 0u64;
-                let mut centroids = Vec::with_capacity(num_centroids);
+                let mut centroids = Vec::with_capacity(num_centroids.min(MAX_PREALLOCATED_CENTROIDS));
                 for _ in 0..num_centroids {
                     let weight = cursor.read_f32_be().map_err(make_error("weight"))? as u64;
                     let mean = cursor.read_f32_be().map_err(make_error("mean"))? as f64;
                     let weight = check_nonzero(weight, "centroid weight in compat float format")?;
                     check_non_nan(mean, "centroid mean in compat float format")?;
                     check_finite(mean, "centroid mean in compat float format")?;
-                    total_weight += weight.get();
+                    total_weight = checked_total(total_weight, weight.get())?;
                     centroids.push(Centroid { mean, weight });
                 }
+                check_centroids(min, max, &centroids, &[])?;
                 Ok(TDigestMut::make(
                     k,
                     false,
@@ -1308,6 +1313,33 @@ fn check_finite(value: f64, tag: &'static str) -> Result<(), Error> {
         )));
     }
 
+    Ok(())
+}
+
+fn checked_total(total: u64, weight: u64) -> Result<u64, Error> {
+    total
+        .checked_add(weight)
+        .ok_or_else(|| Error::deserial("malformed data: total weight overflows u64"))
+}
+
+/// rank() and quantile() rely on centroid means that are sorted and bracketed by min and max.
+fn check_centroids(
+    min: f64,
+    max: f64,
+    centroids: &[Centroid],
+    buffer: &[f64],
+) -> Result<(), Error> {
+    let sorted = centroids.windows(2).all(|w| w[0].mean <= w[1].mean);
+    let bracketed = match (centroids.first(), centroids.last()) {
+        (Some(first), Some(last)) => min <= first.mean && last.mean <= max,
+        _ => true,
+    };
+    let buffered_in_range = buffer.iter().all(|&v| min <= v && v <= max);
+    if !sorted || !bracketed || !buffered_in_range {
+        return Err(Error::deserial(
+            "malformed data: centroid means must be sorted and lie within [min, max]",
+        ));
+    }
     Ok(())
 }
 
